@@ -199,3 +199,26 @@ Example gather_example :
   = (true, [mkop 2 true; mkop 0 false], [mkop 3 true; mkop 1 false])
   /\ inblock_swaps [mkop 3 true; mkop 2 true; mkop 1 false; mkop 0 false] = 0.
 Proof. vm_compute. split; reflexivity. Qed.
+
+(* swapping two adjacent anticommuting operators anywhere inside a string flips its sign *)
+Lemma scomp_mid_sneg (F G A B : det -> sdet) :
+  (forall d, F d = sneg (G d)) -> forall d, scomp A (scomp F B) d = sneg (scomp A (scomp G B) d).
+Proof.
+  intros H d. unfold scomp.
+  destruct (B d) as [[s1 d1]|]; [|reflexivity].
+  specialize (H d1). destruct (F d1) as [[s2 d2]|]; destruct (G d1) as [[s3 d3]|];
+    simpl in H; try discriminate; [|reflexivity].
+  inversion H; subst. destruct (A d3) as [[s4 d4]|]; [|reflexivity]. simpl.
+  destruct s1, s3, s4; reflexivity.
+Qed.
+
+Lemma string_swap_adjacent x y a b : anticomm x y ->
+  forall d, string_fn (a ++ [x; y] ++ b) d = sneg (string_fn (a ++ [y; x] ++ b) d).
+Proof.
+  intros A d. rewrite !string_fn_app.
+  assert (E : forall u v e, string_fn ([u; v] ++ b) e = scomp (scomp (op_fn u) (op_fn v)) (string_fn b) e).
+  { intros u v e. simpl. rewrite <- scomp_assoc. reflexivity. }
+  rewrite (scomp_ext _ _ _ _ (fun e => eq_refl) (E x y)).
+  rewrite (scomp_ext _ _ _ _ (fun e => eq_refl) (E y x)).
+  apply scomp_mid_sneg. exact A.
+Qed.
